@@ -32,7 +32,7 @@ Print Assumptions C11_parallel_moves_terminates.
 (* ======================================================================================== *)
 From Coq Require Import ZArith NArith String FMapPositive Permutation Sorted.
 From SCC Require Import Lang.AxSyn Model.Backend Model.X86 Sem.X86Sem Proof.X86State Proof.X86Sel Proof.X86Exec
-     Proof.X86Mem Proof.X86ParMoves Proof.SubstGraph Proof.X86Subst.
+     Proof.X86MemSubst Proof.X86ParMoves Proof.SubstGraph Proof.X86Subst.
 Local Open Scope Z_scope.
 
 (* (i) The code `parallel_moves_code x86_backend A` (x_mov / x_store_temporary / x_restore_temporary
